@@ -167,7 +167,7 @@ def run_check(pid: str, tier: str, seed: int, jobs: int, replay: str | None = No
         if agg["lost"]:
             # a lost worker is never a verdict; a few are tolerated only if the minima are still met
             if len(agg["lost"]) > max(1, agg["batches"] // 10):
-                inconclusive.append(f"{len(agg['lost'])} of {agg['batches']} workers lost: {agg['lost'][0][:600]}")
+                inconclusive.append(f"{len(agg['lost'])} of {agg['batches']} workers lost: {agg['lost'][0][:120]} ... {agg['lost'][0][-1200:]}")
 
     # ---- evidence
     wall = time.time() - t0
@@ -244,7 +244,7 @@ def run_check(pid: str, tier: str, seed: int, jobs: int, replay: str | None = No
     elif inconclusive:
         rc = 2
         for r in inconclusive[:5]:
-            print(f"INCONCLUSIVE property={pid} reason={r[:700]}")
+            print(f"INCONCLUSIVE property={pid} reason={r[:1500]}")
     else:
         print(f"[{pid}] HELD on everything observed")
     return rc
